@@ -113,6 +113,8 @@ func genC15(t *rapid.T) *C15Case {
 		kinds := []string{"never", "immediately", "reactive", "reactive", "half", "just-before", "after"}
 		if timeout <= time.Millisecond {
 			kinds = []string{"never", "after"} // no room strictly before the deadline
+		} else if timeout >= time.Second {
+			kinds = append(kinds, "hangup")
 		}
 		c.AnswerKind = rapid.SampledFrom(kinds).Draw(t, "answerKind")
 		if c.AnswerKind == "never" && rapid.Bool().Draw(t, "refuseLogout") {
@@ -129,7 +131,14 @@ func genC15(t *rapid.T) *C15Case {
 		case "after":
 			off = timeout + time.Duration(rapid.Int64Range(1, 2e9).Draw(t, "late"))
 		}
-		if c.AnswerKind == "reactive" {
+		if c.AnswerKind == "hangup" {
+			// the peer sends something, answers the Logout and hangs up at once; the application's
+			// handler is still busy with the first of the two (1 ms) when the connection's end is
+			// reported: the answer, already accepted by the handler, must still be processed
+			c.Cfg.Buf = 10
+			c.AnswerStep = add(rig.Step{Op: "burst", Burst: []*rig.InMsg{g.heartbeat(""), g.logout()}})
+			add(rig.Step{Op: "connclosed"})
+		} else if c.AnswerKind == "reactive" {
 			c.AnswerStep = c.EndStep
 			g.inSeq += 1
 		} else if c.AnswerKind != "never" {
@@ -175,6 +184,11 @@ func checkC15(c *C15Case, rec *evid.Rec) (vs []pbt.Violation) {
 	if c.RefuseLogout {
 		hooks.BeforeRun = func(h *simplefixgo.DefaultHandler, log *rig.EventLog) {
 			h.HandleOutgoing(rig.TLogout, func(simplefixgo.SendingMessage) bool { return false })
+		}
+	}
+	if c.AnswerKind == "hangup" {
+		hooks.BeforeRun = func(h *simplefixgo.DefaultHandler, log *rig.EventLog) {
+			h.HandleIncoming(rig.THeartbeat, func([]byte) bool { time.Sleep(time.Millisecond); return true })
 		}
 	}
 	if c.AnswerKind == "reactive" {
@@ -244,6 +258,8 @@ func checkC15(c *C15Case, rec *evid.Rec) (vs []pbt.Violation) {
 			vs = append(vs, pbt.V("context-never-cancelled", "Stop() at %v with close timeout %v: the session context was never cancelled (answer: %s)", end.At, timeout, c.AnswerKind))
 		case got < want:
 			vs = append(vs, pbt.V("context-cancelled-early", "Stop() at %v, close timeout %v, answer %s: context cancelled at %v, before %v", end.At, timeout, c.AnswerKind, got, want))
+		case got > want && answered && c.AnswerKind == "hangup" && got <= want+5*time.Millisecond:
+			// the answer waited behind the busy handler for its millisecond
 		case got > want && answered:
 			vs = append(vs, pbt.V("answer-did-not-cancel", "Stop() at %v, close timeout %v: the peer's Logout arrived at %v but the context was cancelled only at %v", end.At, timeout, want, got))
 		case got > want:
